@@ -6,6 +6,7 @@
 package c11
 
 import (
+	"io"
 	"context"
 	"database/sql"
 	"errors"
@@ -210,11 +211,16 @@ func Run(c *Case) *vkit.Outcome {
 	switch c.Fault {
 	case "cancel-before":
 		cancel()
-	case "store-read", "store-read-deadline":
+	case "store-read", "store-read-deadline", "store-read-eof":
 		if base != nil {
 			base.SetHook(func(op string, n, seq int, _ context.Context) storekit.Action {
 				if op == "read" && n == c.K {
 					faultFired.Store(true)
+					if c.Fault == "store-read-eof" {
+						// what net/http reports when the server hangs up
+						// without answering: an error that wraps io.EOF
+						return storekit.Action{Err: fmt.Errorf("store: Get \"http://store/v1/stream\": %w", io.EOF)}
+					}
 					if c.Fault == "store-read-deadline" {
 						// the store's own timeout: an error of context class
 						// while the caller's context is alive
@@ -225,11 +231,14 @@ func Run(c *Case) *vkit.Outcome {
 				return storekit.Action{}
 			})
 		}
-	case "store-row", "store-row-deadline":
+	case "store-row", "store-row-deadline", "store-row-eof":
 		if base != nil {
 			base.SetHook(func(op string, n, seq int, _ context.Context) storekit.Action {
 				if op == "row" && n == c.K {
 					faultFired.Store(true)
+					if c.Fault == "store-row-eof" {
+						return storekit.Action{Err: fmt.Errorf("store: unexpected end of stream: %w", io.ErrUnexpectedEOF)}
+					}
 					if c.Fault == "store-row-deadline" {
 						return storekit.Action{Err: fmt.Errorf("store: row fetch timed out: %w", context.DeadlineExceeded)}
 					}
@@ -280,7 +289,7 @@ func Run(c *Case) *vkit.Outcome {
 			plan.QueryFail = c.K
 			plan.Arm(true)
 		}
-	case "http-err", "http-500", "http-deadline":
+	case "http-err", "http-500", "http-deadline", "http-eof":
 		if srv != nil {
 			base0 := int(srv.Requests())
 			srv.SetFault(func(n int, r *http.Request) (int, error) {
@@ -288,6 +297,9 @@ func Run(c *Case) *vkit.Outcome {
 					faultFired.Store(true)
 					if c.Fault == "http-500" {
 						return 500, nil
+					}
+					if c.Fault == "http-eof" {
+						return 0, io.EOF
 					}
 					if c.Fault == "http-deadline" {
 						return 0, fmt.Errorf("client timeout: %w", context.DeadlineExceeded)
